@@ -106,6 +106,11 @@ CHECKS = {
             'A template program with every slot kind (variable, parameter, function, class, exception class, class argument, body field, method, method parameter, loop variable, match binder, handle variable, tuple components; with sqrt, Optional and `?` on a field so that generator-special names matter) x the adversarial pool one name at a time (names the generator emits or special-cases: size, init, super, math, typing, abc, Optional, Union, NewType, ABC, abstractmethod, int, str, list, isinstance, value, dunder-like and underscore forms, 1- and 40-letter names ...), plus sweep and generated programs with sampled single renamings and full renamings into ordinary names.',
             'Never renamed from or to: self, __init__, operator names, names defined in the default context and keywords; a pool name counts as fresh only if the program does not already use it.',
             'DESIGN.md section 4, C15'),
+    'C19': ('fault_enumeration',
+            'runtime monitor on rendered diagnostics: a parser for the renderer\'s own format applied to the strings mamba_to_python returns, cross-checked with the rejecting stage obtained through the public stage functions; fault enumeration per line',
+            'For sweep cells and generated programs, each code line gets one lexical, one syntactic and one type fault (the latter on a line of its own), and the last statement is truncated under three final-newline forms; the same per file of generated multi-file projects; plus the rejected inputs of the hostile streams (mutated samples, class-hierarchy and type-expression fuzz, soup, raw text), adversarial shapes and the repository\'s invalid samples. Checked: at least one diagnostic; header names a given file (the faulty one); header position inside that file\'s text; every quoted line verbatim; the fault line is mentioned.',
+            'Line N as the renderer defines it (Rust str::lines). Localisation is only judged for faults that have a line of their own, and for lexical/syntactic faults only when the parse stage rejects.',
+            'DESIGN.md section 4, C19'),
 }
 
 NOT_YET = 'monitor not built yet in this revision (construction order: DESIGN.md section 9); not claimed rather than claimed weakly'
